@@ -13,6 +13,7 @@ KIND_NAMES = {
     1302: 'C13/magnet: magnet.New(String()) vs Magnet.v (render then parse)',
     1303: 'session/metadata: metadata phase of a magnet torrent in the stepped event loop (extension handshakes, ut_metadata exchange, snub/disconnect, messages before the metadata is known, replay of queued messages) vs MetaSess.v',
     1702: 'session/connections: address batches (refusing and answering addresses), handshake results in arrival order, incoming connections, disconnects, stop and start through the real dialer, acceptor and handshakers of a torrent vs ConnLimit.v (addresses waiting, outgoing, incoming, peers, running after every event)',
+    1704: 'C17/webseed_cap: AddTorrent of a torrent with k web seed URLs under WebseedMaxSources = c: no crash, min(k, c) kept',
     1703: 'session/ram_late_grant: write cache of one piece, two interested seeds, the second waits for memory; the grant is handled after the torrent completed or was stopped: allocated objects afterwards',
     1701: 'C17/ram: resourcemanager vs Ram.v (outcomes and notifications validated; allocation compared exactly)',
     901: 'C09/picker: piecepicker (peer half) under the torrent glue vs Picker.v (picks validated against the legal set)',
@@ -29,6 +30,7 @@ KIND_NAMES = {
     303: 'C03/admission: request handling of the stepped event loop vs Admission.serve',
     1801: 'C18/blocklist: blocklist.Reload+Blocked vs Stree.reload/contains',
     1802: 'C18/stree: stree.Contains vs Stree.build/contains',
+    1804: 'session/ban_dial: MaxPeerDial 1, the address of a connected scripted peer waits in the address list, the peer delivers a corrupt (or, as a control, a correct) piece, then the dial slot is freed: banned => not dialled; control => dialled',
     1803: 'C18/addrlist: addrlist Push/Pop/Reset vs AddrList.v',
     1105: 'C03/writer_queue: peerwriter with a blocked connection: pieces, choke, cancelled requests, other messages, queue bound 1..4 with and without the fast extension, then the connection is released: bytes written and upload counter vs Wire.run_wqueue',
     1101: 'C11/writer: peerwriter bytes vs Wire.enc_go (+ upload counter)',
@@ -118,7 +120,7 @@ PROPS = {
         'assumptions': [],
     },
     'C17': {
-        'kinds': {1701: {'quick': 1200, 'thorough': 20000}, 1702: {'quick': 1000, 'thorough': 20000}, 1703: {'quick': 300, 'thorough': 6000}, 302: {'quick': 3000, 'thorough': 60000}, 1803: {'quick': 3000, 'thorough': 60000}},
+        'kinds': {1701: {'quick': 1200, 'thorough': 20000}, 1702: {'quick': 1000, 'thorough': 20000}, 1703: {'quick': 300, 'thorough': 6000}, 1704: {'quick': 200, 'thorough': 2000}, 302: {'quick': 3000, 'thorough': 60000}, 1803: {'quick': 3000, 'thorough': 60000}},
         'trusted': ['Go select semantics: one ready case is chosen; channel operations are atomic steps of the manager loop'],
         'assumptions': ['callers release only reservations they were granted (caller protocol)'],
     },
@@ -133,7 +135,7 @@ PROPS = {
         'assumptions': ['0 < ReadCacheBlockSize < 2^31; piece length < 2^32'],
     },
     'C18': {
-        'kinds': {1801: {'quick': 3000, 'thorough': 60000}, 1802: {'quick': 4000, 'thorough': 100000}, 1803: {'quick': 3000, 'thorough': 60000}},
+        'kinds': {1801: {'quick': 3000, 'thorough': 60000}, 1802: {'quick': 4000, 'thorough': 100000}, 1803: {'quick': 3000, 'thorough': 60000}, 1804: {'quick': 200, 'thorough': 4000}},
         'trusted': ['net.ParseCIDR / bufio.Scanner / bytes.TrimSpace (the model starts from parsed rules)', 'slices.Sort returns the sorted permutation'],
         'assumptions': [],
     },
